@@ -22,6 +22,11 @@ def families(r):
     """-> list of (name, source, exact need or None if divergent, max budget)"""
     F = []
     F.append(("self", "DEFINE ping AS ping END DEFINE\nping", None, 1024))
+    # twins: the same rule text with a terminating body, expanded in the same driver process right before the divergent one
+    F.append(("self-twin-terminating", "DEFINE ping AS pong END DEFINE\nping", 1, 1024))
+    F.append(("self-again", "DEFINE ping AS ping END DEFINE\nping", None, 64))
+    F.append(("mutual-twin-terminating", "DEFINE aa AS bb END DEFINE\nDEFINE bb AS cc END DEFINE\naa", 2, 1024))
+    F.append(("mutual-again", "DEFINE aa AS bb END DEFINE\nDEFINE bb AS aa END DEFINE\naa", None, 64))
     F.append(("self-in-context", "DEFINE ping AS ping END DEFINE\nx := 1 ; ping ; y := 2", None, 1024))
     F.append(("grow-linear", "DEFINE grow AS x := 1 ; grow END DEFINE\ngrow", None, 1024))
     F.append(("mutual", "DEFINE aa AS bb END DEFINE\nDEFINE bb AS aa END DEFINE\naa", None, 1024))
@@ -42,58 +47,82 @@ def families(r):
 def plan(tier, seed):
     specs = []
     fams = families(None)
-    for fi, f in enumerate(fams):
-        name, src, need, maxb = f
-        bs = [b for b in BUDGETS if b <= maxb]
-        if need:
-            bs += [b for b in (need - 1, need, need + 1) if 1 <= b <= maxb]
-        bs = sorted(set(bs))
-        if tier == "quick":
-            # the 1023/1024-pass runs are expensive: only for three families
-            bs = [b for b in bs if b < 1000 or name in ("self", "grow-linear", "chain64")]
-        for b in bs:
-            specs.append({"fam": fi, "budget": b, "mode": "macro"})
+    # macro-mode runs: groups of three consecutive families share one driver process (call history!)
+    groups = [list(range(i, min(i + 3, len(fams)))) for i in range(0, len(fams), 3)]
+    for g in groups:
+        per = {}
+        for fi in g:
+            name, src, need, maxb = fams[fi]
+            bs = [b for b in BUDGETS if b <= maxb]
+            if need:
+                bs += [b for b in (need - 1, need, need + 1) if 1 <= b <= maxb]
+            bs = sorted(set(bs))
+            if tier == "quick":
+                bs = [b for b in bs if b < 1000 or name in ("self", "grow-linear", "chain64")]
+            per[fi] = bs
+        small = {fi: [b for b in bs if b < 1000] for fi, bs in per.items()}
+        allb = sorted(set(x for v in small.values() for x in v))
+        runs = [(fi, b) for b in allb for fi in g if b in small[fi]]
+        for i in range(0, len(runs), 40):
+            specs.append({"mode": "macro", "runs": runs[i:i + 40]})
+        for fi, bs in per.items():
+            for b in bs:
+                if b >= 1000:
+                    specs.append({"mode": "macro", "runs": [(fi, b)]})
     for fi, f in enumerate(fams):
         if f[3] >= 1024 and (tier != "quick" or f[0] in ("self", "mutual", "chain5", "uses3", "grow-linear", "chain65")):
-            specs.append({"fam": fi, "budget": 1024, "mode": "compile"})
-    if tier != "quick":
-        specs = specs * 1
+            specs.append({"mode": "compile", "runs": [(fi, 1024)]})
+    # compile a divergent set right after its terminating twin in the same process
+    specs.append({"mode": "compile", "runs": [(1, 1024), (0, 1024)]})
     return specs
 
 
 def _work(spec):
     part = harness.new_partial()
-    name, src, need, maxb = families(None)[spec["fam"]]
-    files = {"main": src}
-    b = spec["budget"]
-    part["evals"] += 1
+    fams = families(None)
+    runs = [tuple(x) for x in spec["runs"]]
     if spec["mode"] == "compile":
-        case = {"mode": "compile", "main": "main", "files": files, "opts": [("program", 0)]}
-        outs, _ = common.run_batch([case], case_cpu=900)
-        o = outs[0]
-        if common.abnormal(ID, case, o, part, "while compiling a divergent macro set"):
-            return part
-        divergent = need is None
-        if divergent and o["ok"]:
-            part["violations"].append({"signature": "unfinished-expansion-passed-on", "message":
-                                       "family %s never stops rewriting, yet compile marked the result correct after %d rewrites" % (name, o["rewrites"]),
-                                       "case": common.slim_case(case)})
-            return part
-        if divergent and not any("too many macro substitutions" in e[1] for e in o["errors"]):
-            part["violations"].append({"signature": "no-budget-error-from-compile", "message": "family %s: errors %s" % (name, [e[1][:70] for e in o["errors"][:3]]),
-                                       "case": common.slim_case(case)})
-            return part
-        if o["rewrites"] > 1024:
-            part["violations"].append({"signature": "budget-exceeded", "message": "%d rewrites inside compile (budget 1024)" % o["rewrites"],
-                                       "case": common.slim_case(case)})
-            return part
-        part["stats"]["compile-runs"] += 1
-        part["stats"]["rewrites-observed"] += o["rewrites"]
-        part["nontrivial"].append(harness.chash([src, b, "compile"]))
+        cases = [{"mode": "compile", "main": "main", "files": {"main": fams[fi][1]}, "opts": [("program", 0)]} for fi, b in runs]
+        outs, _ = common.run_batch(cases, case_cpu=900)
+        for (fi, b), case, o in zip(runs, cases, outs):
+            name, src, need, maxb = fams[fi]
+            part["evals"] += 1
+            if common.abnormal(ID, case, o, part, "while compiling a divergent macro set"):
+                continue
+            divergent = need is None
+            budget_err = any("too many macro substitutions" in e[1] for e in o["errors"])
+            if divergent and o["ok"]:
+                part["violations"].append({"signature": "unfinished-expansion-passed-on", "message":
+                                           "family %s never stops rewriting, yet compile marked the result correct after %d rewrites" % (name, o["rewrites"]),
+                                           "case": common.slim_case(case)})
+                continue
+            if divergent and not budget_err:
+                part["violations"].append({"signature": "no-budget-error-from-compile", "message": "family %s: errors %s" % (name, [e[1][:70] for e in o["errors"][:3]]),
+                                           "case": common.slim_case(case)})
+                continue
+            if not divergent and budget_err and need < 1024:
+                part["violations"].append({"signature": "spurious-budget-error-from-compile", "message":
+                                           "family %s needs %d rewrites but compile reports too many substitutions" % (name, need), "case": common.slim_case(case)})
+                continue
+            if o["rewrites"] > 1024:
+                part["violations"].append({"signature": "budget-exceeded", "message": "%d rewrites inside compile (budget 1024)" % o["rewrites"],
+                                           "case": common.slim_case(case)})
+                continue
+            part["stats"]["compile-runs"] += 1
+            part["stats"]["rewrites-observed"] += o["rewrites"]
+            part["nontrivial"].append(harness.chash([src, b, "compile"]))
         return part
-    case = {"mode": "macro", "main": "main", "files": files, "opts": [("passes", b), ("streams", 0), ("maxevents", 1100)]}
-    outs, _ = common.run_batch([case], case_cpu=900)
-    o = outs[0]
+    cases = [{"mode": "macro", "main": "main", "files": {"main": fams[fi][1]}, "opts": [("passes", b), ("streams", 0), ("maxevents", 1100)]} for fi, b in runs]
+    outs, _ = common.run_batch(cases, case_cpu=900)
+    for (fi, b), case, o in zip(runs, cases, outs):
+        judge_macro_run(fams[fi], b, case, o, part)
+    return part
+
+
+def judge_macro_run(fam, b, case, o, part):
+    name, src, need, maxb = fam
+    files = {"main": src}
+    part["evals"] += 1
     if common.abnormal(ID, case, o, part, "while expanding a divergent macro set"):
         return part
     rp = macrocommon.replay(files, "main", o, b, max_steps=1100)
